@@ -108,6 +108,8 @@ class UnloadRun:
         def on_transport(tr):
             cb = getattr(tr.protocol, "received_cb", None)
             sock = getattr(cb, "__self__", None)
+            if sock is None and getattr(tr.protocol, "overlay", None) is env.target_overlay:
+                sock = tr.protocol          # a socket a bootstrapper opened for the overlay
             if sock is not None and getattr(sock, "overlay", None) is env.target_overlay:
                 st["owned_transports"].append(tr)
                 orig_sendto = tr.sendto
@@ -141,7 +143,12 @@ class UnloadRun:
             for m in managers:
                 self.track_manager(m)
             if c.get("cut") == 0:
-                start_unload()
+                def later0(k: int) -> None:
+                    if k <= 0:
+                        start_unload()
+                    else:
+                        loop.call_soon(later0, k - 1)
+                later0(c.get("lag", 0))
         env.on_target = instrument
         if c.get("cut_time") is not None:
             loop.call_later(c["cut_time"], start_unload)
@@ -444,7 +451,10 @@ def _cut_shard(ctx: Ctx, shard: int, nshards: int, per_scenario: int) -> None:
             step = len(ks) / per_scenario
             off = ctx.seed % max(1, int(step))
             ks = sorted({min(n, int(i * step) + off) for i in range(per_scenario)} | {0, n})
-        if name.startswith(("tunnel", "hidden")):
+        if name.startswith("bootstrap"):
+            # tiny scenario: every cut with every lag (the bootstrappers initialise over a few loop iterations)
+            jobs += [{"scenario": name, "cut": k, "lag": lag} for k in ks for lag in range(8)]
+        elif name.startswith(("tunnel", "hidden")):
             lags = [None] if per_scenario else range(0, 6)
             jobs += [{"scenario": name, "cut": k, "lag": (k + ctx.seed) % 6 if lag is None else lag} for k in ks
                      for lag in lags]
